@@ -125,6 +125,17 @@ def check_channel_and_frames(ctx):
     nid = cfg.stmt_node_containing(c)
     ctx.check(any(g in dom.get(nid, ()) for g in guards), "ORD-channel", f"{f.qualname}|{short(c, 60)}", ctx.where(f.module, c), "dominated by a channel-1 test that skips other channels",
               f"`{short(c, 60)}` is reachable for words that do not belong to channel 1: channel-2 data would be decoded into the captions")
+  # null padding (0000 once the parity bits are stripped) is neither text nor a code: it is skipped before anything looks at it
+  def skips_null(test):
+    r = match.relation(test, lambda e: unparse(e) == f"{W}.value", lambda e: isinstance(e, ast.Constant) and e.value == 0 and not isinstance(e.value, bool))
+    return r == "=="
+  null_guards = [n.id for n in cfg.nodes if n.kind == "test" and isinstance(n.ast, ast.If) and skips_null(n.ast.test) and any(isinstance(x, ast.Continue) for x in n.ast.body)]
+  chan_stores = [st for st in own_nodes(lp) if isinstance(st, ast.Assign) and any(isinstance(t, ast.Attribute) and t.attr == "current_channel" and unparse(t.value) == CX for t in st.targets)]
+  unguarded = [x for x in calls + chan_stores if not any(g in dom.get(cfg.stmt_node_containing(x), ()) for g in null_guards)]
+  ctx.check(bool(null_guards) and not unguarded, "ORD-channel", f"{f.qualname}|null words are skipped before the channel and the decoder see them", ctx.where(f.module, lp),
+            "`if word.value == 0: continue` dominates every decoder call and channel update",
+            ("no test skips the null word 0000" if not null_guards else (f"`{short(unguarded[0], 50)}` is reachable for the null word" if unguarded else "")) +
+            ": padding between the words of a caption would be read as a code of no channel, and the text after it is dropped")
   # the channel of a code word comes from the word itself; the channel of text from the last code word
   body = lp.body
   # DUP: the skip condition, read as a boolean function of (previous word is None, same value, previous word is a
